@@ -48,6 +48,10 @@ func checkC03(c *Ctx) {
 	ruleNoOvertakingHeldItem(c, "C03.q")
 	c.rule("C03.r", "the client expects the embedded-message fields of a body structure for every subtype the backend supplies them for", 1)
 	ruleEmbeddedMessageTypes(c, "C03.r")
+	c.rule("C03.s", "a missing Sender / Reply-To of an envelope is sent as the From list of the same envelope (RFC 3501 §7.4.2)", 2)
+	ruleEnvelopeDefaults(c, "C03.s")
+	c.rule("C03.t", "no field store sits behind a guard that a dominating identical comparison has already decided the other way (no undeliverable decoded field)", 1)
+	ruleNoContradictedGuard(c, "C03.t", "imapclient", "imapserver", "internal/imapwire", "internal")
 	ruleOptionDefaulting(c, "C03.h")
 }
 
